@@ -1,20 +1,20 @@
-\* background part: one mountpoint, neighbour pre-resolution, prefetch + background fetch, TTL expiry
+\* the caller contract switched off: two calls on the SAME mountpoint in flight; fs.go alone does not keep MountedIffInMap
 CONSTANTS
     MPs = {"m1"}
-    Blobs = {"b1", "b2"}
+    Blobs = {"b1"}
     Labs = {"ok"}
     Ops = {"Mount", "Check", "Unmount"}
-    MaxCalls = 2
+    MaxCalls = 3
     MaxConc = 2
     MaxObj = 2
-    SameMp = FALSE
+    SameMp = TRUE
     OneMount = FALSE
     AllowNoVerif = TRUE
     DisableVerif = FALSE
     NoPrefetch = FALSE
-    NoBgFetch = FALSE
-    PreRes = TRUE
-    Expiry = TRUE
+    NoBgFetch = TRUE
+    PreRes = FALSE
+    Expiry = FALSE
     ReleaseOnFail = TRUE
     EraseOnFail = TRUE
     VerifyFirst = TRUE
